@@ -2,8 +2,8 @@ NOT_APPLICABLE = {}
 TECH = 'contracts on the real functions; VCs generated from the AST of /repo by symbolic execution (pyvc) and discharged by z3/cvc5'
 CLAIMED['C19'] = dict(
     text='Proof: define_blockshape_3d/_2d verified for all paths and all integer block dimensions, int/float/string bit rates: '
-         'accepted => VALID and as requested; VALID request => accepted. Unbounded. Near-miss floats/strings: bounded grid under CPython.',
-    note='floats as exact reals (S3a); ENGINE pyvc + z3/cvc5 trusted; faithful read-back of every valid setting is the layout obligation of C01/C02/C09')
+         'accepted => VALID and as requested; VALID request => accepted. Unbounded. Near-miss floats/strings: bounded grid under CPython. The check also runs the contract sets of C01, C02 and C03 (C19 promises their guarantees for every accepted setting): producers, header words, reader construction, loaders and readers over the configuration case split incl. blockshapes with unequal dimensions.',
+    note='floats as exact reals (S3a); ENGINE pyvc + z3/cvc5 trusted; faithful read-back of every valid setting = the obligations of the included C01/C02/C03 sets (2-D: C09); configurations as a case split (quick: representatives; thorough: all)')
 CLAIMED['C02'] = dict(
     text='Proof (per function, modular): every loader function and read_inline/crossline/zslice/subvolume/volume/subplane/get_trace return exactly '
          'the slice of the spec-defined volume V they denote, for all cube shapes and arguments, per valid (rate, blockshape) setting '
@@ -33,7 +33,7 @@ CLAIMED['C16'] = dict(
     text='Proof over thread skeletons extracted from the real source on every run: inductive global invariant (Owicki-Gries, all steps of all threads), '
          'file = header + blocks in order on return, workers parked and no step enabled after the return, deadlock freedom, decreasing variant; '
          'symbolic item count N >= 1 and queue capacities >= 1 (not only 1..3 plane sets / capacities 1,2,16). A failing obligation is given a reachable '
-         'schedule by bounded search and the schedule is forced on the real pipeline.',
+         'schedule by bounded search and the schedule is forced on the real pipeline. The three producer contracts are part of the check: one put per block in block order, and the array handed to the queue is not an object other iterations overwrite (a reused buffer).',
     note='AX-QUEUE / Thread / atomic file writes assumed; granularity = queue operations, thread starts, file writes (as the property states)',
     technique='Owicki-Gries invariant proof (z3) over a transition system extracted from the AST of the real thread functions')
 CLAIMED['C10'] = dict(
@@ -44,7 +44,7 @@ CLAIMED['C10'] = dict(
 CLAIMED['C13'] = dict(
     text='Proof of the subscript semantics of the accessors (ordinal slices/ints with negative wrap; line-number slices with all default combinations on ascending and '
          'descending axes; len) against spec functions transcribed from segyio/CPython. Accessor construction binds each accessor to the count, axis and read method of its kind (those read methods are under the value contracts of C02/C04); subvolume[a:b:c, ...] by line number with steps. '
-         'The emulator object: every documented attribute is the accessor / reader method of its kind on the same handle (2-D: line accessors refuse); tools.cube, tools.dt. Contents of bin / text objects (segyio Field) are not covered.',
+         'The emulator object: every documented attribute is the accessor / reader method of its kind on the same handle (2-D: line accessors refuse); tools.cube, tools.dt. Contents of bin / text objects (segyio Field) are not covered. The check also runs the C02 set (the read methods the accessors delegate to). Open finding D43: attributes(field)[k] for one integer k is a scalar, not segyio\'s length-1 array.',
     note='AX-SEGYIO-ACC transcription (hash pinned); values_function abstract; line numbers >= 1')
 CLAIMED['C17'] = dict(
     text='Proof (fault mode: any range read may raise or come back short/empty): for the range-read primitives + choke point (file and blob) and every loader function / '
@@ -53,12 +53,12 @@ CLAIMED['C17'] = dict(
     note='AX-POOL, AX-GIL, AX-FILE/AX-BLOB weak form; value side is C02 (fault-free executions)')
 CLAIMED['C01'] = dict(
     text='Proof of the producer side for the routes under contract (NumPy; regular SEG-Y through segyio and through the reduced-I/O reader incl. its byte offsets) + layout agreement: every array put on the compression queue = edge-replicated source on its box, '
-         'exact shape, and its cells land at spec_off in the file, all cube shapes, every valid setting; reader side = C02 (read_volume under contract); pipeline order = C16; sizes = C03. '
+         'exact shape, and its cells land at spec_off in the file, all cube shapes, every valid setting; reader side and header words: the contract sets of C02 and C03 are run as part of this check; pipeline order = C16. '
          'Irregular and 2-D SEG-Y: C08/C09. CLI/VDS/ZGY handles: assumed to behave like the segyio handle model.',
     note='AX-ZFP-ENC, AX-NP-INDEX, sequential loop order; composition across contracts by modularity, not re-proved end to end')
 CLAIMED['C20'] = dict(
-    text='Proof for the routes under contract (NumPy, regular SEG-Y with either reader): the byte strings fed to the hash object are exactly the real inlines of the source, each once, in trace order, for all shapes and settings.',
-    note='AX-SHA1 (incl. collision resistance); write_hash under contract (20 bytes at 960, fed by the digest run_conversion_loop returns); accessor / re-blocker copy of the hash: bounded (C12) / not covered')
+    text='Proof for the routes under contract (NumPy, regular SEG-Y with either reader): the byte strings fed to the hash object are exactly the real inlines of the source, each once, in trace order, for all shapes and settings (the contracts of io_thread_func / io_thread_func_2d / MinimalInlineReader.read_line that fill those buffers are part of the check); get_source_data_hash() returns the 40 hex digits of bytes 960..979.',
+    note='AX-SHA1 (incl. collision resistance); write_hash under contract (20 bytes at 960, fed by the digest run_conversion_loop returns); re-blocker copy of the hash: bounded (C12)')
 CLAIMED['C11'] = dict(
     text='Proof per function (modular): window acceptance in SeismicFileConverter.__init__ (0 is a bound), header-array sizing, make_header window words, io_thread_func '
          '(window samples + header capture; symbolic inline block extent), seismic_file_producer (layout agreement for the window shape, hash of the window rows) -- '
@@ -85,14 +85,14 @@ CLAIMED['C06'] = dict(
     note='AX-SEGYIO-W assumed; get_trace per C02 contracts; found and fixed D35 (format word read from the wrong bytes)')
 CLAIMED['C12'] = dict(
     category='exploration',
-    text='BOUNDED stand-in, not a proof: the real convert_to_adv_sgz is run on a grid of default-layout 2-bit files (quick 13 / thorough 22 shape x array-count x regularity cases) and the output is '
+    text='BOUNDED stand-in, not a proof: the real convert_to_adv_sgz is run on a grid of default-layout 2-bit files (quick 14 / thorough 23 shape x array-count x regularity cases, one with a duplicated header word) and the output is '
          'compared with the source under the independent spec oracle and the real reader (conformance, every real voxel bitwise, axes, trace count, file headers, every trace header, hash). '
          'Proved (contract on the real function): every unsupported input is refused with AssertionError before any output exists.',
-    note='bounded in cube shapes; the copying loops are outside the VC generator (out-of-range slice semantics, four nested symbolic loops); found and fixed D31, D32, D36',
+    note='bounded in cube shapes; the copying loops are outside the VC generator (out-of-range slice semantics, four nested symbolic loops); found and fixed D31, D32, D36, D44',
     technique='bounded stand-in: native execution of the real function on a stated grid against an independent spec oracle; refusal part by contract + VCs (pyvc, z3)')
 CLAIMED['C15'] = dict(
     text='Proof by invariant: the state SgzReader.__init__ establishes is under contract; every read contract holds for any admissible cache state and its result is a function of file and arguments; '
-         'explicit state variants for the header-array cache (fresh / padded / masked), the population mask (loaded or not) and the ordinal override; preload vs file mode give the same spec result. '
+         'explicit state variants for the header-array cache (fresh / padded / masked), the population mask (loaded or not) and the ordinal override; preload vs file mode give the same spec result; the C02 set (every read from the state __init__ establishes) is run as part of this check, plus a two-calls-on-one-loader variant of the multithreaded sub-volume read built by the real loader __init__. '
          'lru caches are assumed transparent (justified by the purity the loader contracts establish). Known finding D16 (irregular files: padding-convention mismatch raises AssertionError) is reported, not repaired.',
     note='AX-LRU; frozen-field frame condition enforced by the engine; multi-reader / emulator sharing argued from per-reader state + seek-before-read, not separately verified')
 CLAIMED['C18'] = dict(
